@@ -63,6 +63,19 @@ pub fn all() -> Vec<Prop> {
             ],
             batches: vec![Batch { name: "images", scenario: crate::scen_a::c03_images, quick: 40000, thorough: 600000, varies: "sink chunking/EINTR x failed-then-repeated saves x reload/resave x incremental appends (persist step under faults)" }],
         },
+        Prop {
+            id: "C05",
+            level: "exploration",
+            rule: "one case = one generated document x security handler configuration (V1; V2 40..128; V4/R5/V5 with named crypt filters of kind RC4/AES/Identity assigned independently to strings and streams, Crypt overrides, EncryptMetadata) x password pair x RNG mode of the rand seam; \
+                   checked: encrypt leaves no >=16-byte plaintext under a non-identity filter; decrypt with user and with owner password, in memory and after save(SimSink)+load(SimSource, drawn schedule), restores the model and removes Encrypt; a wrong password gives Err and leaves the document digest unchanged; \
+                   distinct = distinct (encrypted document digest, configuration); non-trivial = at least one protected payload of >= 16 bytes",
+            assumptions: &[
+                "every byte the library asks its RNG for comes from the simulator (rand shim); all five RNG modes are legal OS RNG outputs",
+                "wrong passwords differ from both real ones within their first 32 ASCII bytes (no reliance on lopdf's password sanitisation)",
+                "configurations the constructor rejects (e.g. SASLprep-prohibited passwords) are skipped and counted",
+            ],
+            batches: vec![Batch { name: "encrypt", scenario: crate::scen_d::c05_encrypt, quick: 30000, thorough: 400000, varies: "RNG bytes (IVs, salts, pad bytes; 5 adversarial modes) x sink/source chunking x loader schedule x in-memory vs persisted path" }],
+        },
     ]
 }
 
